@@ -137,9 +137,14 @@ func verifyFunc(p *Program, fn *ssa.Function, fc *FuncContract) (u *UnitResult) 
 	vo := vc.oblige("vacuity.requires", "", name, "true", "false", "")
 	vo.Vacuity = true
 	fr.run(st)
-	// ensures at every return
+	// ensures: one obligation per clause, covering every return
 	names := fc.Returns
-	for ri, r := range fr.rets {
+	type retEnv struct {
+		env *Env
+		st  *state
+	}
+	var envs []retEnv
+	for _, r := range fr.rets {
 		ext := map[string]T{}
 		if len(names) == 0 {
 			if len(r.vals) == 1 {
@@ -148,7 +153,6 @@ func verifyFunc(p *Program, fn *ssa.Function, fc *FuncContract) (u *UnitResult) 
 			for i, v := range r.vals {
 				ext[fmt.Sprintf("result%d", i)] = v
 			}
-			// source-named results
 			if fn.Signature.Results() != nil {
 				for i := 0; i < fn.Signature.Results().Len(); i++ {
 					if n := fn.Signature.Results().At(i).Name(); n != "" && n != "_" && i < len(r.vals) {
@@ -166,21 +170,24 @@ func verifyFunc(p *Program, fn *ssa.Function, fc *FuncContract) (u *UnitResult) 
 		}
 		env := fr.specEnv(r.st, ext)
 		env.calleeScope = true
-		for i, en := range fc.Ensures {
-			g := env.evalBool(en.E)
-			lab := en.Label
-			if lab == "" {
-				lab = fmt.Sprintf("post%d", i+1)
-			}
-			if len(fr.rets) > 1 {
-				lab = fmt.Sprintf("%s@ret%d", lab, ri+1)
-			}
-			o := fr.obligeHere("ensures", lab, r.st, g, fmt.Sprintf("%s:%d", en.File, en.Line))
-			if o != nil {
-				o.props = en.Props
-				o.clause = en
-			}
+		envs = append(envs, retEnv{env, r.st})
+	}
+	for i, en := range fc.Ensures {
+		lab := en.Label
+		if lab == "" {
+			lab = fmt.Sprintf("post%d", i+1)
 		}
+		var parts []string
+		for _, re := range envs {
+			parts = append(parts, implies(re.st.reach, re.env.evalBool(en.E)))
+		}
+		if len(parts) == 0 {
+			continue
+		}
+		o := vc.oblige("ensures", lab, name, "true", and(parts...), fmt.Sprintf("%s:%d", en.File, en.Line))
+		o.Values = fr.inputs
+		o.props = en.Props
+		o.clause = en
 	}
 	if fc.Pure {
 		// a pure function must not write caller-visible memory: its frame.* obligations (modifies nothing) cover that.
